@@ -66,6 +66,7 @@ LADDER_SIZES = {"quick": [1000, 10000, 30000, 100000, 300000],
 LADDER_SHAPES = ["path", "ring", "comb", "tree", "star", "pairs"]
 LADDER_FUNCS = ["find_connected", "get_molecule_indices", "get_molecule_masks", "molecule_iter"]
 SHAPE_MAX = {"star": 3000, "pairs": 10000}
+LADDER_TIMEOUT = 120
 DEEP = 10000  # recursion depth class boundary used in signatures
 
 
@@ -686,7 +687,7 @@ def check_ladder(ctx, case):
     N, depth, per_root, all_comps = ladder_expected(shape, n)
     exp = per_root if func == "find_connected" else all_comps
     dcls = "bond_path_gt_1e4" if depth > DEEP else "bond_path_le_1e4"
-    r = ctx.isolated(ladder_child, shape, n, func, timeout=240)
+    r = ctx.isolated(ladder_child, shape, n, func, timeout=LADDER_TIMEOUT)
     ctx.outcome((shape, n, func, r[0]))
     if r[0] == "ok":
         got = [tuple(x) for x in r[1]]
@@ -709,7 +710,7 @@ def check_ladder(ctx, case):
                       case, expected="connected components", observed=list(r))
         return
     if r[0] == "timeout":
-        ctx.violation("%s|did_not_terminate|ladder_%s" % (func, dcls), "no result within 240 s", case,
+        ctx.violation("%s|did_not_terminate|ladder_%s" % (func, dcls), "no result within %d s" % LADDER_TIMEOUT, case,
                       expected="connected components", observed="timeout")
         return
     ctx.violation("%s|%s|ladder_%s" % (func, "raised_" + r[1] if r[0] == "exc" else "exit", dcls),
@@ -788,11 +789,37 @@ def stack_rule(tier, L, idx):
     return idx % 16 == 5
 
 
+class CaseTimeout(BaseException):
+    """Raised by the per-case alarm: turns a Python-level endless loop into an observation."""
+
+
+def _on_alarm(signum, frame):
+    raise CaseTimeout()
+
+
+CASE_TIMEOUT = 30.0
+MAX_TIMEOUTS_PER_SHARD = 3
+
+
+def _arm():
+    import signal
+
+    signal.signal(signal.SIGALRM, _on_alarm)
+
+
+def _timer(seconds):
+    import signal
+
+    signal.setitimer(signal.ITIMER_REAL, seconds)
+
+
 def run_shard(shard, ctx):
     k = shard["kind"]
     if k == "seg":
+        _arm()
         run_seg(shard, ctx)
     elif k == "graph":
+        _arm()
         run_graph(shard, ctx)
     elif k == "ladder":
         for func in LADDER_FUNCS:
@@ -814,6 +841,7 @@ def run_seg(shard, ctx):
     free = L - len(prefix)
     second = shard.get("second")
     base = 0
+    timeouts = 0
     for d in prefix:
         base = base * NLET + d
     for tail in itertools.product(letters, repeat=free):
@@ -834,7 +862,22 @@ def run_seg(shard, ctx):
             if not ctx.journal(cs_):
                 continue
             case = {"kind": "seg", "L": L, "idx": idx, "pal": p, "stack": as_stack, "level": shard["level"]}
-            rs, cs = check_pattern(ctx, case, rows, as_stack, full)
+            try:
+                _timer(CASE_TIMEOUT)
+                rs, cs = check_pattern(ctx, case, rows, as_stack, full)
+                _timer(0)
+            except CaseTimeout:
+                ctx.ev(1)
+                ctx.violation("seg_views|did_not_terminate|%s" % ("empty_array" if L == 0 else "nonempty"),
+                              "a residue/chain view did not return within %d s" % CASE_TIMEOUT, case,
+                              expected="a result", observed="timeout")
+                timeouts += 1
+                if timeouts >= MAX_TIMEOUTS_PER_SHARD:
+                    ctx.note("C17: a seg shard was cut short after %d case time-outs" % timeouts)
+                    return
+                continue
+            finally:
+                _timer(0)
             nt = (1 < len(rs) < L) or (1 < len(cs) < L)
             ctx.ev(1, 1 if nt else 0)
             if not as_stack:
@@ -843,8 +886,37 @@ def run_seg(shard, ctx):
                 ctx.sample({**case, "atoms": [list(r) for r in rows], "residue_starts": rs, "chain_starts": cs})
 
 
+def _canary(tier, seed):
+    """Forked child: every graph on <= 4 vertices through check_graph.  Only survival matters
+    (the same graphs are judged in-process by the small-graph shard)."""
+    from mc.ctx import Ctx
+
+    c = Ctx(ID, tier, seed)
+    for v in range(5):
+        for bits in range(1 << (v * (v - 1) // 2)):
+            check_graph(c, {"kind": "graph", "v": v, "bits": bits, "variant": bits % 2}, v, bits, bits % 2)
+    return c.viol_total
+
+
 def run_graph(shard, ctx):
+    # a defect that kills or hangs the interpreter on ordinary small graphs would take the worker down
+    # once per case; find that out in a child first
+    canary_case = {"kind": "graph_canary"}
+    if ctx.journal(canary_case):
+        r = ctx.isolated(_canary, ctx.tier, ctx.seed, timeout=120)
+        if r[0] in ("signal", "timeout", "exit"):
+            what = {"signal": "process_killed_signal_%s" % (r[1:] or ("?",))[0], "timeout": "did_not_terminate",
+                    "exit": "process_exit"}[r[0]]
+            ctx.violation("molecules|%s|graphs_up_to_4_vertices" % what,
+                          "the molecule functions killed / hung a child process on the graphs with <= 4 vertices; "
+                          "in-process enumeration of this shard skipped", canary_case, expected="results",
+                          observed=list(r))
+            ctx.note("C17: graph enumeration skipped in shards whose canary child died")
+            return
+        if r[0] == "exc":
+            raise RuntimeError("canary raised %r" % (r,))
     vs = shard["v"] if isinstance(shard["v"], list) else [shard["v"]]
+    timeouts = 0
     for v in vs:
         nb = v * (v - 1) // 2
         for bits in range(1 << nb):
@@ -856,7 +928,21 @@ def run_graph(shard, ctx):
                 if not ctx.journal(cs_):
                     continue
                 case = {"kind": "graph", "v": v, "bits": bits, "variant": variant}
-                comps, nt = check_graph(ctx, case, v, bits, variant)
+                try:
+                    _timer(CASE_TIMEOUT)
+                    comps, nt = check_graph(ctx, case, v, bits, variant)
+                    _timer(0)
+                except CaseTimeout:
+                    ctx.ev(1)
+                    ctx.violation("molecules|did_not_terminate|small_graph", "a molecule function did not return "
+                                  "within %d s" % CASE_TIMEOUT, case, expected="a result", observed="timeout")
+                    timeouts += 1
+                    if timeouts >= MAX_TIMEOUTS_PER_SHARD:
+                        ctx.note("C17: a graph shard was cut short after %d case time-outs" % timeouts)
+                        return
+                    continue
+                finally:
+                    _timer(0)
                 ctx.ev(1, 1 if nt else 0)
                 if variant == variants[0]:
                     ctx.outcome((v, tuple(comps)))
@@ -874,6 +960,8 @@ def crash_class(case):
             return "graph|v%d" % case.get("v", -1)
         if k == "ladder":
             return "ladder|%s" % case.get("func")
+        if k == "graph_canary":
+            return "graph_canary"
     return "unclassified"
 
 
@@ -883,9 +971,32 @@ def replay(case, ctx):
     k = case["kind"]
     if k == "seg":
         rows = rows_of(digits(case["idx"], case["L"]), PALETTES[case["pal"]])
-        check_pattern(ctx, case, rows, case["stack"], case["level"] == "full")
+        _arm()
+        try:
+            _timer(CASE_TIMEOUT)
+            check_pattern(ctx, case, rows, case["stack"], case["level"] == "full")
+        except CaseTimeout:
+            ctx.violation("seg_views|did_not_terminate|%s" % ("empty_array" if case["L"] == 0 else "nonempty"),
+                          "a residue/chain view did not return", case, expected="a result", observed="timeout")
+        finally:
+            _timer(0)
     elif k == "graph":
-        check_graph(ctx, case, case["v"], case["bits"], case["variant"])
+        _arm()
+        try:
+            _timer(CASE_TIMEOUT)
+            check_graph(ctx, case, case["v"], case["bits"], case["variant"])
+        except CaseTimeout:
+            ctx.violation("molecules|did_not_terminate|small_graph", "a molecule function did not return", case,
+                          expected="a result", observed="timeout")
+        finally:
+            _timer(0)
+    elif k == "graph_canary":
+        r = ctx.isolated(_canary, ctx.tier, ctx.seed, timeout=120)
+        if r[0] in ("signal", "timeout", "exit"):
+            what = {"signal": "process_killed_signal_%s" % (r[1:] or ("?",))[0], "timeout": "did_not_terminate",
+                    "exit": "process_exit"}[r[0]]
+            ctx.violation("molecules|%s|graphs_up_to_4_vertices" % what, "canary child died", case,
+                          expected="results", observed=list(r))
     elif k == "ladder":
         check_ladder(ctx, case)
     else:
